@@ -200,6 +200,16 @@ def core_family(pid):
             s += [{"a": "ack", "tag": k, "code": 1} for k in (3, 2, 1) if k != dup]
             s += [{"a": "call", "g": "P4", "kind": "callWait", "tag": 4}, {"a": "reply", "tag": 4, "cid": 34}, {"a": "ack", "tag": 4, "code": 1}, {"a": "close"}]
             add("dupAck%d-%d" % (dup, second), s)
+    # a waiting caller's reply arrives two or three times BEFORE its ack, then the call is refused (or the caller's context ends): the caller
+    # leaves with an error, the dispatcher stays available - another caller gets its reply, an incoming call is received
+    for n, (ndup, leave) in enumerate(((2, "neg"), (3, "neg"), (2, "expire"), (3, "expire"))):
+        s = calls(["callWait", "callWait", "call"])
+        s += [{"a": "reply", "tag": 1, "cid": 35 + k} for k in range(ndup)] + [{"a": "sleep", "ms": 120}]
+        s += [{"a": "ack", "tag": 1, "code": 19}] if leave == "neg" else [{"a": "expire", "tag": 1}]
+        s += [{"a": "sleep", "ms": 50}, {"a": "call", "g": "P4", "kind": "callWait", "tag": 4}, {"a": "reply", "tag": 4, "cid": 39}, {"a": "ack", "tag": 4, "code": 1},
+              {"a": "incall", "cid": 38}, {"a": "recvCall", "g": "RC"}, {"a": "ack", "tag": 2, "code": 1}, {"a": "reply", "tag": 2, "cid": 40},
+              {"a": "ack", "tag": 3, "code": 1}, {"a": "close"}]
+        add("dupReplyThenLeave%d" % n, s)
     # replies and acks for ids nobody uses, interleaved with the real ones
     for n, order in enumerate(([1, 2, 3], [3, 1, 2])):
         s = calls(["callWait", "call", "callWait"]) + [{"a": "recvReply", "g": "RR"}]
